@@ -20,7 +20,8 @@ BASE = [("isi", {}), ("spike", {}), ("spike", {"RI": True}), ("sync", {}), ("syn
 
 def plan(tier):
     if tier == "quick":
-        specs = [(2, [("dense", 1, 5)], MRTS_Q), (3, [("dense", 1, 3)], MRTS_Q[::2])]
+        specs = [(2, [("dense", 1, 5)], MRTS_Q), (3, [("dense", 1, 3)], MRTS_Q[::2]),
+                 (2, [("bounded", 3, 6, 7)], [0.0] + MRTS_Q[4:])]
     else:
         specs = [(2, [("dense", 1, 7), ("bounded", 3, 8, 10)], MRTS_T), (3, [("dense", 1, 4)], MRTS_Q)]
     tasks, descs = [], []
@@ -171,6 +172,37 @@ def evaluate(r, trains, edges, menu, be, rank=(), auto_only=False):
                  "MRTS='auto' differs from passing default_thresh explicitly")
             continue
         r.outcomes.add((name, round(om["v"], 9), round(oa["v"], 9)))
+    # ---- MRTS given as an integer number (Python int, numpy integer, float32) means that
+    # number: 0 is the non-adaptive measure, 1 and 2 (= 4u, 8u) equal 1.0 and 2.0
+    if not auto_only:
+        from mc.measures import obs_close
+        tforms = [
+            ("isi_profile", lambda m: _lst(spk.isi_profile(*targs, MRTS=m).y)),
+            ("spike_distance", lambda m: float(spk.spike_distance(*targs, MRTS=m, RI=True))),
+            ("spike_sync_profile", lambda m: _lst(spk.spike_sync_profile(*targs, MRTS=m).y)),
+            ("isi_distance_matrix", lambda m: _lst(spk.isi_distance_matrix(sts, MRTS=m))),
+            ("spike_distance_matrix", lambda m: _lst(spk.spike_distance_matrix(sts, MRTS=m))),
+            ("spike_sync_matrix", lambda m: _lst(spk.spike_sync_matrix(sts, MRTS=m))),
+            ("spike_train_order", lambda m: float(spk.spike_train_order(*targs, MRTS=m))),
+        ]
+        targs = sts if n == 2 else [sts]
+        for val in (0, 1, 2):
+            for fname, f in tforms:
+                try:
+                    ref = f(float(val))
+                    got = [(tn, f(conv(val))) for tn, conv in
+                           (("int", int), ("numpy.int64", np.int64), ("numpy.float32", np.float32))]
+                except Exception as e:
+                    viol("typed.exception", {"form": fname, "MRTS": val}, "results",
+                         "%s: %s" % (type(e).__name__, e), "an integer-typed MRTS raised")
+                    break
+                r.evaluations += 3
+                bad = [tn for tn, g in got if not obs_close(g, ref, TOL)]
+                if bad:
+                    viol("typed", {"form": fname, "MRTS": val, "type": bad[0]}, ref,
+                         dict(got)[bad[0]], "MRTS given as %s differs from the same number given "
+                         "as float" % bad[0])
+                    break
     # ---- 'auto' through list / indices / matrix forms
     if n >= 3:
         forms = [
